@@ -181,6 +181,26 @@ PROPS = {
         "lean_props": ["C10"],
         "streams": [HIST],
     },
+    "C11": {
+        "claim": {
+            "text": "Address level: slices carved one after the other from a fresh chunk are pairwise disjoint and lie "
+                    "inside it (for any lengths); the int and float chunks fit the carved field lists exactly for all "
+                    "numbers of stops, vehicles and expressions; every field of solutionImpl gets an independent value "
+                    "in Copy. The field list, the treatment of each field, the carved lists and the chunk size "
+                    "expressions are extracted from the source on every run and the theorems re-instantiated: a field "
+                    "added and forgotten, a shared backing array or a wrong chunk size breaks them. Value level and "
+                    "independence under later operations are decided on the real code: snapshots of original and copy "
+                    "right after Copy and after every later operation on either side in random histories (nested "
+                    "units included), and concurrent mutation of both under the Go race detector.",
+            "note": TB_COMMON + " Carved slices have spare capacity into the next field; the model records that no "
+                    "operation appends to them. The race detector validates the model and finds replays; it is not the decision procedure.",
+            "technique": "Lean 4 proof (disjointness of carved ranges over regenerated field tables) + snapshot differential and race-detector runs on the real code",
+            "design_ref": "DESIGN.md §5 C11",
+        },
+        "lean_props": ["C11"],
+        "facts": ["CopyFacts"],
+        "streams": [HIST, {"name": "copyrace", "race": True, "model": False}],
+    },
     "C16": {
         "claim": {
             "text": "Index-arithmetic theorems for every table behind the crashes found (matrix layout incl. vehicles "
